@@ -146,6 +146,7 @@ def stage(seed, tier, which="kessoku"):
             meta.append(dict(type=tsrc, observed=v["expr"], imports=v["imports"]))
             kinds[v["type"][0]] = kinds.get(v["type"][0], 0) + 1
     mism, ok, log = [], True, ""
+    nwf = 0
     work = vlib.scratch()
     for sh in range(0, len(cases), 150):
         path = os.path.join(work, "cases_tr_%d.v" % sh)
@@ -153,6 +154,7 @@ def stage(seed, tier, which="kessoku"):
             f.write("From Coq Require Import List String NArith. Import ListNotations. Open Scope string_scope.\nRequire Import TypeRender.\n")
             f.write("Definition cases : list (nat * (string * list (string * string) * ty * ex)) := [\n" + ";\n".join(cases[sh:sh + 150]) + "].\n")
             f.write("Definition M := Eval vm_compute in %s cases.\nPrint M.\n" % ("render_mismatches" if which == "kessoku" else "denote_mismatches"))
+            f.write("Definition Wc := Eval vm_compute in wf_count cases.\nPrint Wc.\n")
         rc, o = vlib.coqc_file(path, timeout=900)
         m = re.search(r"M\s*=\s*\[(.*?)\]\s*:\s*list \(nat \* nat\)", o, re.S)
         if rc != 0 or not m:
@@ -161,7 +163,10 @@ def stage(seed, tier, which="kessoku"):
             continue
         for a, b in re.findall(r"\((\d+),\s*(\d+)\)", m.group(1)):
             mism.append(dict(code=int(b), **meta[int(a)]))
-    resd = dict(n=len(cases), mismatches=mism, errors=errors, coq_ok=ok, log=log, kinds=kinds)
+        w = re.search(r"Wc\s*=\s*\((\d+),\s*(\d+)\)", o)
+        if w:
+            nwf += int(w.group(1))
+    resd = dict(n=len(cases), well_formed=nwf, mismatches=mism, errors=errors, coq_ok=ok, log=log, kinds=kinds)
     os.makedirs(os.path.dirname(cpath), exist_ok=True)
     json.dump(resd, open(cpath, "w"))
     return resd
@@ -169,7 +174,7 @@ def stage(seed, tier, which="kessoku"):
 
 if __name__ == "__main__":
     r = stage(int(os.environ.get("VERIF_SEED", "1")), sys.argv[1] if len(sys.argv) > 1 else "quick", sys.argv[2] if len(sys.argv) > 2 else "kessoku")
-    print("cases", r["n"], "kinds", r["kinds"], "coq_ok", r["coq_ok"], r["log"][-500:])
+    print("cases", r["n"], "well-formed (hypothesis of the round-trip theorem)", r.get("well_formed"), "kinds", r["kinds"], "coq_ok", r["coq_ok"], r["log"][-500:])
     for m in r["mismatches"][:10]:
         print("MISMATCH", m)
     for e in r["errors"][:10]:
